@@ -169,12 +169,23 @@ def modelRun (cfg : Cfg) (rounds : List Round) : List (List Ev) × State :=
       (p.1 ++ [s'.out], s')) ([s0.out], s0)
   (acc, s)
 
+/-- the six RTMA_LOG message types: how many of them the manager originates depends on how many `logger.*` calls the
+    code makes and at which level, which no property pins down -/
+def isLogType (cfg : Cfg) (t : Int) : Bool := cfg.mtLog ≤ t && t ≤ cfg.mtLog + 5
+
 /-- per-property projections of the event stream: the tie of property `P` is the agreement of model and
     implementation on `proj P`; RTMA_LOG frames and `msg_count` values are in none of them, so a change to logging
-    alone breaks no tie (C05's gap-free counts are checked by the Spec on the implementation directly). -/
-def projEv (p : String) (e : Ev) : Option String :=
-  let noCount (u : Nat) (f : Frame) : String :=
-    joinSp (["S", toString u, toString f.mtype, toString f.src, toString f.dest, toString f.destHost, toString f.nbytes] ++ showBody f.body)
+    alone breaks no tie (C05's gap-free counts are checked by the Spec on the implementation directly).
+    C18's tie is the agreement on the statistics *about everything but the log messages themselves*: the TIMING counts and
+    the MESSAGE_TRAFFIC entries of the RTMA_LOG types are left out (an added, removed or re-levelled log call changes
+    them, and the number of traffic entries also decides where one MESSAGE_TRAFFIC sub-message ends and the next begins),
+    so a MESSAGE_TRAFFIC frame is projected to its entries, one line each, without the sub-message number and the
+    unused-slot markers.  Exactness of every count, the log types included, and the shape of the sub-messages are judged
+    by the Spec on the implementation's own frames (PROP), not by this tie. -/
+def projEv (cfg : Cfg) (p : String) (e : Ev) : List String :=
+  let head (u : Nat) (f : Frame) : List String :=
+    ["S", toString u, toString f.mtype, toString f.src, toString f.dest, toString f.destHost, toString f.nbytes]
+  let noCount (u : Nat) (f : Frame) : String := joinSp (head u f ++ showBody f.body)
   match e with
   | .send u _ f =>
     let keep := match f.body, p with
@@ -189,10 +200,17 @@ def projEv (p : String) (e : Ev) : Option String :=
       | .timing .., "C18" | .traffic .., "C18" => true
       | .active .., "C03" => true
       | _, _ => false
-    if keep then some (if p == "all" then showEv e else noCount u f) else none
-  | .close _ => if p == "C18" then none else some (showEv e)
-  | .wfail _ | .partialW _ => if p == "C07" || p == "C14" || p == "C03" || p == "all" || p == "C05" then some (showEv e) else none
-  | .rd _ => if p == "C18" then none else some (showEv e)
+    if !keep then []
+    else if p == "all" then [showEv e]
+    else match f.body with
+      | .timing cs ps => [noCount u { f with body := .timing (cs.filter (fun c => !isLogType cfg c.1)) ps }]
+      | .traffic sq _ ts cs =>
+        ((List.zip ts cs).filter (fun tc => tc.1 != -1 && !isLogType cfg tc.1)).map (fun tc =>
+          joinSp (head u f ++ ["RE", toString sq, toString tc.1, toString tc.2]))
+      | _ => [noCount u f]
+  | .close _ => if p == "C18" then [] else [showEv e]
+  | .wfail _ | .partialW _ => if p == "C07" || p == "C14" || p == "C03" || p == "all" || p == "C05" then [showEv e] else []
+  | .rd _ => if p == "C18" then [] else [showEv e]
 
 def firstDiff (i : Nat) : List (List String) → List (List String) → Option String
   | [], [] => none
@@ -218,8 +236,8 @@ def finishCase (c : Case) : List String :=
       ("all" :: Pyrtma.Mgr.Spec.props).map (fun p =>
         -- a crash is C03's business: the other ties are compared on the rounds completed before it
         let upto := if c.crash.isSome && p != "C03" && p != "all" then oev.length - 1 else max mev.length oev.length
-        let m := (mev.take upto).map (·.filterMap (projEv p))
-        let o := (oev.take upto).map (·.filterMap (projEv p))
+        let m := (mev.take upto).map (·.flatMap (projEv c.cfg p))
+        let o := (oev.take upto).map (·.flatMap (projEv c.cfg p))
         match firstDiff 0 m o, crashTxt with
         | none, none => s!"{c.id} CORR {p} ok"
         | some d, _ => s!"{c.id} CORR {p} diff {d}"
@@ -260,8 +278,8 @@ def finishCase (c : Case) : List String :=
   let dump :=
     if !c.dump then []
     else
-      let m := mev.map (·.filterMap (projEv "all"))
-      let o := oev.map (·.filterMap (projEv "all"))
+      let m := mev.map (·.flatMap (projEv c.cfg "all"))
+      let o := oev.map (·.flatMap (projEv c.cfg "all"))
       let idx := ((List.zip m o).takeWhile (fun p => p.1 == p.2)).length
       (m.getD idx []).map (fun e => s!"{c.id} DUMP model round {idx}: {e}") ++
       (o.getD idx []).map (fun e => s!"{c.id} DUMP impl  round {idx}: {e}")
